@@ -293,6 +293,11 @@ impl Watcher {
                     "The appointment contained invalid data {}",
                     appointment.locator()
                 );
+                // If this was an update, the appointment being replaced is dropped along with the invalid data. The slots
+                // have been recomputed based on the new data, so keeping the old one would leave it unaccounted for.
+                if self.dbm.lock().unwrap().appointment_exists(uuid) {
+                    self.gatekeeper.delete_appointments(vec![uuid], false);
+                }
                 TriggeredAppointment::Invalid
             }
         }
